@@ -514,6 +514,14 @@ struct C08StatWorld: World {
         for (size_t q = 0; q < pos.size(); q++) { const i64 v = hra ? n - pos[q] + 1 : pos[q]; const double tr = static_cast<double>(v) / static_cast<double>(n), est = s->get_rank(static_cast<float>(v), true);
           for (int nsd = 1; nsd <= 3; nsd++) { const double lb = s->get_rank_lower_bound(est, static_cast<uint8_t>(nsd)), ub = s->get_rank_upper_bound(est, static_cast<uint8_t>(nsd)); if (tr < lb - 1e-12 || tr > ub + 1e-12) miss[q][static_cast<size_t>(nsd)]++; if (nsd == 3 && lb == ub && std::fabs(est - tr) > 1e-12) { const double zone = static_cast<double>(3 * k) / static_cast<double>(n); if (pos[q] > 3 * k && (hra ? est >= 1.0 - zone - 1e-12 : est <= zone + 1e-12)) exact_wrong[q]++; else exact_wrong_beyond[q]++; } } }
       }
+      // "relative bounds at the accurate end": each half-width of the published interval may only shrink towards the accurate end (checked on one estimating sketch)
+      { SimRandom rnd(mix(p.run_seed, 999999)); RandomScope rsb(rnd); std::unique_ptr<S> sb = build<S>([&]() { return ReqKind<float>::make(ki, hra); }, n, order, mode);
+        if (sb->is_estimation_mode()) for (int nsd = 1; nsd <= 3; nsd++) { double prev_up = -1, prev_lo = -1;
+          for (int g = 1; g <= 19; g++) { const double r = hra ? 1.0 - g * 0.05 : g * 0.05;   // walking away from the accurate end
+            const double up = sb->get_rank_upper_bound(r, static_cast<uint8_t>(nsd)) - r, lo = r - sb->get_rank_lower_bound(r, static_cast<uint8_t>(nsd));
+            if (up < prev_up - 1e-12 || lo < prev_lo - 1e-12) ctx.fail("C08|req|published-interval-narrower-away-from-the-accurate-end", std::string(up < prev_up - 1e-12 ? "upper" : "lower") + " half-width at rank " + std::to_string(r) + " is " + hexd(up < prev_up - 1e-12 ? up : lo) + ", nearer to the accurate end it was " + hexd(up < prev_up - 1e-12 ? prev_up : prev_lo) + cell);
+            prev_up = up; prev_lo = lo; } }
+        ctx.check(); }
       static const double claim[4] = { 0, 0.3173, 0.0455, 0.0027 };
       // a rank the sketch declares exact (zero-width bounds) must be exact under every coin sequence. Two cases: the estimate itself lies within the
       // never-compacted 3k items of the accurate end (the item is just outside and its estimate is off by an item or two), or it does not.
